@@ -134,6 +134,10 @@ namespace bloch::runtime {
     void QasmSimulator::cx(int control, int target) {
         ensureQubitActive(control);
         ensureQubitActive(target);
+        if (control == target) {
+            throw BlochError(ErrorCategory::Runtime, 0, 0,
+                             "cx requires distinct control and target qubits");
+        }
         // Swap amplitudes where control is 1 and target is 0 to flip target,
         // iterating only the affected subspace to avoid per-index branching.
         int low = std::min(control, target);
